@@ -93,7 +93,7 @@ func sweepTargets(b []byte) []sweepTarget {
 
 // sweepBudget scales the sweep: lines per target, truncation offsets per target, scalars per
 // target whose sub-ranges are deleted.
-type sweepBudget struct{ lines, truncs, scalars, eolLines int }
+type sweepBudget struct{ lines, truncs, scalars, eolLines, jsonNodes, jsonRepl int }
 
 // sweepMuts lists the mutation sequences of one target.
 func sweepMuts(body []byte, bud sweepBudget) [][]Mut {
@@ -110,6 +110,18 @@ func sweepMuts(body []byte, bud sweepBudget) [][]Mut {
 			}
 		}
 		return out
+	}
+	// JSON documents: every node (the first ones, then a spread) replaced by null, empty and
+	// wrongly typed values
+	if n := jsonNodes(body); n > 0 {
+		for _, node := range sweepLines(n, bud.jsonNodes) {
+			for r := range jsonReplacements {
+				if r >= bud.jsonRepl {
+					break
+				}
+				out = append(out, []Mut{{Op: "jsonnode", A: node, B: r}})
+			}
+		}
 	}
 	// whole-document format changes
 	out = append(out, []Mut{{Op: "crlf"}}, []Mut{{Op: "crcrlf"}}, []Mut{{Op: "crlf"}, {Op: "crcrlf"}}, []Mut{{Op: "bom"}}, []Mut{{Op: "dropnl"}}, []Mut{{Op: "crlf"}, {Op: "bom"}})
@@ -209,10 +221,12 @@ func TestC02_linesweep(t *testing.T) {
 	en := ev.NewEnumerator(t, col)
 	shard, shards := ev.Shard()
 	bud := sweepBudget{
-		lines:    ev.IntEnv("C02_SWEEP_LINES", ev.Scale(96, 1200)),
-		truncs:   ev.IntEnv("C02_SWEEP_TRUNCS", ev.Scale(48, 1024)),
-		scalars:  ev.IntEnv("C02_SWEEP_SCALARS", ev.Scale(5, 48)),
-		eolLines: ev.Scale(3, 8),
+		lines:     ev.IntEnv("C02_SWEEP_LINES", ev.Scale(96, 1200)),
+		truncs:    ev.IntEnv("C02_SWEEP_TRUNCS", ev.Scale(48, 1024)),
+		scalars:   ev.IntEnv("C02_SWEEP_SCALARS", ev.Scale(5, 48)),
+		eolLines:  ev.Scale(3, 8),
+		jsonNodes: ev.IntEnv("C02_SWEEP_JSONNODES", ev.Scale(48, 600)),
+		jsonRepl:  ev.Scale(5, len(jsonReplacements)),
 	}
 	only := os.Getenv("C02_ONLY")
 	var idx, ran, targets, auxTargets int
